@@ -13,6 +13,8 @@ from .. import facts, serde_audit
 from ..prov import Prov, flatten, field_names
 from ..tygraph import TyGraph, fields_read_of_self, short
 from ..util import keyname, calls, last, fns_by_key, norm
+from ..cfg import Cfg
+from ..common import method
 
 LEVEL = "proof"
 HASH = "core::hash::Hash"
@@ -320,6 +322,7 @@ def _agree(ck, p):
     hfn = byk.get("IgnoredLints::hash_lint_context")
     if not ck.anchor(rule, "IgnoredLints::hash_lint_context", hfn):
         return
+    sorted_form = []
     for name in ("ignore_lint", "is_ignored"):
         fs = byk.get("IgnoredLints::" + name)
         if not ck.anchor(rule, "IgnoredLints::" + name, fs):
@@ -338,8 +341,13 @@ def _agree(ck, p):
             # the set operation uses that hash
             setops = [(b, bi2, t2) for b, bi2, t2 in calls(p, f) if re.search(r"HashSet.*::(insert|contains)$|::set::.*::(insert|contains)$", (t2["f"].get("pretty") or "") + " " + (t2["f"].get("inst") or ""))]
             if len(setops) != 1:
-                ok = False
-                detail += "; expected one set operation, found %d" % len(setops)
+                sv = _sorted_vec_form(p, f, pv, name)
+                if sv is True:
+                    sorted_form.append(name)
+                    detail += "; sorted-vector form: binary_search(hash)%s on context_hashes" % (" then insert at the position found" if name == "ignore_lint" else "")
+                else:
+                    ok = False
+                    detail += "; expected one set operation (or the sorted-vector form), found %d%s" % (len(setops), "; " + sv if sv else "")
             else:
                 t2 = setops[0][2]
                 want = "insert" if name == "ignore_lint" else "contains"
@@ -350,6 +358,8 @@ def _agree(ck, p):
                 ok = ok and from_hash and opname == want
                 detail += "; context_hashes.%s(hash)=%s" % (opname, from_hash)
         ck.decide(rule, "IgnoredLints::" + name, ok, f.span, detail)
+    if sorted_form:
+        _sorted_invariant(ck, p, rule)
     # remove_ignored: retain(|lint| !self.is_ignored(lint, document))
     fs = byk.get("IgnoredLints::remove_ignored")
     if ck.anchor(rule, "IgnoredLints::remove_ignored", fs):
@@ -476,3 +486,65 @@ def _select(ck, p):
         ck.refuted(rule, "from_lint:%s" % fn, where, "%s selects tokens with %s, which assumes the token vector is sorted by position; Markdown documents are not (the zero-width ParagraphBreak of a block sits at the start of the block's last text chunk), so which tokens are hashed depends on the size of the rest of the document and an ignored lint comes back after an edit elsewhere" % (fn, m))
     else:
         ck.proved(rule, "from_lint:token-selection", f.span, "%d Document functions reachable from from_lint; none uses partition_point / binary_search on the tokens" % len(reached))
+
+
+# ---------------------------------------------------------------------------------------------------
+def _on_hashes(pv, op):
+    return "context_hashes" in (field_names(pv.trace_operand(op)) | set(e[2] for e in (op.get("c") or op.get("m") or [])[1:] if isinstance(e, list) and e[0] == "f"))
+
+
+def _sorted_vec_form(p, f, pv, name):
+    """ignore_lint: binary_search(&hash) on context_hashes and insert(idx from that search, hash); is_ignored: binary_search(&hash)"""
+    bs = [(bi, t) for bi, t in f.calls() if method(t) in ("binary_search", "binary_search_by", "binary_search_by_key") and _on_hashes(pv, t["args"][0])]
+    if len(bs) != 1:
+        return "no single binary_search on context_hashes"
+    leaves = flatten(pv.trace_operand(bs[0][1]["args"][1]))
+    if not any(o[0] == "call" and (o[3] or "").endswith("::hash_lint_context") for o in leaves):
+        return "the searched value is not the context hash"
+    if name == "ignore_lint":
+        ins = [(bi, t) for bi, t in f.calls() if method(t) == "insert" and _on_hashes(pv, t["args"][0])]
+        if len(ins) != 1:
+            return "expected one insert on context_hashes"
+        idx_from = any(o[0] == "call" and o[1] == bs[0][0] for o in flatten(pv.trace_operand(ins[0][1]["args"][1])))
+        val = any(o[0] == "call" and (o[3] or "").endswith("::hash_lint_context") for o in flatten(pv.trace_operand(ins[0][1]["args"][2])))
+        if not (idx_from and val):
+            return "insert position is not the one binary_search reported, or the value is not the hash"
+    return True
+
+
+KEEPS_ORDER = {"dedup", "dedup_by", "dedup_by_key", "retain", "retain_mut", "clear", "remove", "truncate", "pop", "drain", "shrink_to_fit", "reserve",
+               "binary_search", "binary_search_by", "binary_search_by_key", "len", "is_empty", "iter", "contains", "as_slice", "deref", "clone", "sort", "sort_unstable", "sort_by", "sort_by_key", "sort_unstable_by", "sort_unstable_by_key", "partition_point"}
+SORTS = {"sort", "sort_unstable", "sort_by", "sort_by_key", "sort_unstable_by", "sort_unstable_by_key"}
+
+
+def _sorted_invariant(ck, p, rule):
+    """lookups use binary search, so every function that changes context_hashes must leave it sorted"""
+    n = 0
+    for f in sorted(p.fns.values(), key=lambda f: f.name):
+        if not f.name.startswith("harper_core::ignored_lints::") or f.get("kind") == "Promoted":
+            continue
+        pv = Prov(f)
+        cfg = Cfg(f)
+        rets = [bi for bi, b in enumerate(f.blocks) if b["t"]["k"] == "return" and not b["cleanup"]]
+        sorts = [bi for bi, t in f.calls() if method(t) in SORTS and t["args"] and _on_hashes(pv, t["args"][0])]
+        bs = {bi for bi, t in f.calls() if method(t).startswith("binary_search") and t["args"] and _on_hashes(pv, t["args"][0])}
+        for bi, t in f.calls():
+            if not t["args"] or not _on_hashes(pv, t["args"][0]):
+                continue
+            m = method(t)
+            if m in KEEPS_ORDER or m in ("deref_mut", "as_mut", "borrow_mut", "index"):
+                continue
+            a0 = t["args"][0]
+            mut = True
+            n += 1
+            key = "%s:keeps-sorted:%s" % (keyname(p, f), m)
+            if m == "insert" and len(t["args"]) > 2 and any(o[0] == "call" and o[1] in bs for o in flatten(pv.trace_operand(t["args"][1]))):
+                ck.proved(rule, key, f.loc(t["ln"]), "insert at the position binary_search reported keeps the vector sorted")
+                continue
+            after = [sb for sb in sorts if cfg.reaches(bi, [sb])]
+            ok = bool(after) and cfg.every_path_passes(bi, after, to=rets)[0]
+            if ok:
+                ck.proved(rule, key, f.loc(t["ln"]), "followed by a sort of context_hashes on every path to the return")
+            else:
+                ck.refuted(rule, key, f.loc(t["ln"]), "context_hashes is looked up with binary_search, but %s(..) here can leave it unsorted and no sort follows on every path: after it lookups miss hashes that are in the list - ignored lints come back (e.g. after importing an exported list into an instance that already has entries)" % m)
+    ck.extra["sorted_vector_mutations"] = n
